@@ -131,6 +131,11 @@ def run(cx):
     ack_frame_applies_both(cx, "C20.e")
     from props.shared import ack_processing_presence
     ack_processing_presence(cx, "C20.f")
+    # the buffer size returns to zero only if every acknowledgement that arrives intact reaches PacketSender::acknowledge
+    # and is applied there: the endpoints forward ack frames unconditionally, and the sender refuses only what it must
+    from props.shared import frame_forward_exact, packet_ack_exact
+    frame_forward_exact(cx, "C20.h")
+    packet_ack_exact(cx, "C20.i")
     with cx.instance("C20.c", "T7 SHAPE", "send_buffer_size forwards PacketSender.total_size under Active and returns 0 otherwise", floor=4) as inst:
         t = R.body(PS + "total_size")
         e = show(t.local_expr(0))
